@@ -840,3 +840,138 @@ func signed(v int64) string {
 	}
 	return itoa(int(v))
 }
+
+// retainsSliceParam: indices of slice parameters (any element type) that fn keeps beyond the call without copying: the
+// parameter value itself is stored into a field or an element (directly or through a struct literal), or handed to a module
+// callee that does so.
+func (c *Ctx) retainsSliceParam(fn *ssa.Function, depth int) map[int]bool {
+	out := map[int]bool{}
+	if depth > 3 || len(fn.Blocks) == 0 {
+		return out
+	}
+	for i, p := range fn.Params {
+		if _, ok := p.Type().Underlying().(*types.Slice); !ok || p.Referrers() == nil {
+			continue
+		}
+		for _, ref := range *p.Referrers() {
+			switch x := ref.(type) {
+			case *ssa.Store:
+				if x.Val != ssa.Value(p) {
+					continue
+				}
+				switch x.Addr.(type) {
+				case *ssa.FieldAddr, *ssa.IndexAddr:
+					out[i] = true
+				}
+			case *ssa.MapUpdate:
+				if x.Value == ssa.Value(p) {
+					out[i] = true
+				}
+			case *ssa.Call:
+				callee := x.Call.StaticCallee()
+				if callee == nil || !inModule(fnPkgPath(callee)) {
+					continue
+				}
+				sub := c.retainsSliceParam(callee, depth+1)
+				for ai, a := range x.Call.Args {
+					if a == ssa.Value(p) && sub[ai] {
+						out[i] = true
+					}
+				}
+			}
+		}
+	}
+	return out
+}
+
+// madeInIteration: v is a buffer created inside the innermost loop that contains `at` (or `at` is in no loop): a make, an
+// append to nil/fresh, a string conversion, or the result of a module function all of whose returns are fresh.
+func (c *Ctx) madeInIteration(v ssa.Value, at ssa.Instruction) bool {
+	// innermost loop containing at
+	var hdr *ssa.BasicBlock
+	for _, b := range at.Parent().Blocks {
+		isHeader := false
+		for _, p := range b.Preds {
+			if b.Dominates(p) {
+				isHeader = true
+			}
+		}
+		if isHeader && naturalLoop(b)[at.Block()] {
+			if hdr == nil || hdr.Dominates(b) {
+				hdr = b
+			}
+		}
+	}
+	if !c.freshBuffer(v, 0) {
+		return false
+	}
+	if hdr == nil {
+		return true
+	}
+	loop := naturalLoop(hdr)
+	// the defining instruction of the fresh root must be inside the loop
+	root := v
+	for i := 0; i < 8; i++ {
+		switch x := root.(type) {
+		case *ssa.Slice:
+			root = x.X
+			continue
+		case *ssa.Call:
+			if b, ok := x.Call.Value.(*ssa.Builtin); ok && b.Name() == "append" {
+				if k, isK := x.Call.Args[0].(*ssa.Const); isK && k.IsNil() {
+					return loop[x.Block()]
+				}
+				root = x.Call.Args[0]
+				continue
+			}
+		}
+		break
+	}
+	if in, ok := root.(ssa.Instruction); ok {
+		return loop[in.Block()]
+	}
+	return false
+}
+
+// retainedArgsFresh: at every call (inside a loop) of a module function selected by `sel` that retains a slice parameter, the
+// argument is made in that iteration.
+func (c *Ctx) retainedArgsFresh(r *Result, rule string, callerPkg string, sel func(calleeName string) bool, what string) int {
+	n := 0
+	for _, fn := range c.LibFuncs() {
+		if shortPkg(fnPkgPath(fn)) != callerPkg {
+			continue
+		}
+		for _, site := range callsIn(fn) {
+			callee := site.Common().StaticCallee()
+			if callee == nil || !sel(c.Name(callee)) {
+				continue
+			}
+			ret := c.retainsSliceParam(callee, 0)
+			in := site.(ssa.Instruction)
+			inLoop := false
+			for _, s := range in.Block().Succs {
+				if reachableFrom(s, nil)[in.Block()] {
+					inLoop = true
+				}
+			}
+			if len(ret) == 0 {
+				n++
+				r.Hold(rule, c.Name(fn)+"#"+c.Name(callee)+"#retained-argument-is-fresh", c.InstrPos(in), c.Name(callee)+" copies what it keeps")
+				continue
+			}
+			for ai := range ret {
+				if ai >= len(site.Common().Args) {
+					continue
+				}
+				arg := site.Common().Args[ai]
+				if _, isParam := arg.(*ssa.Parameter); isParam && !inLoop {
+					continue
+				}
+				n++
+				ok := !inLoop || c.madeInIteration(arg, in)
+				r.Check(ok, rule, c.Name(fn)+"#"+c.Name(callee)+"#retained-argument-is-fresh", c.InstrPos(in), c.Name(callee)+" keeps the slice it is given ("+what+"); inside a loop the argument must be made in that iteration, otherwise every retained entry ends up with the last element's contents")
+			}
+		}
+	}
+	return n
+}
